@@ -550,7 +550,7 @@ func main() {
 	_ = ed25519.PublicKeySize
 	for p, i := range points {
 		r.Count("pauses_at_"+p, int(atomic.LoadInt64(&paused[i])))
-		r.Floor("pauses_at_"+p, int(atomic.LoadInt64(&paused[i])), n)
+		r.Floor("pauses_at_"+p, int(atomic.LoadInt64(&paused[i])), n/3)
 	}
 	r.Floor("configurations_completed", int(r.Counter("configurations_completed")), n*9/10)
 	r.Floor("pairs_of_controllers_paired_at_the_same_time+violations", int(r.Counter("pairs_of_controllers_paired_at_the_same_time"))+r.ViolationCount(), n/6)
